@@ -32,9 +32,9 @@ type postPlan struct {
 
 func drawPostPlan(ch *simrt.Chooser, tls13 bool) postPlan {
 	p := postPlan{}
-	kinds := []string{"empty-flood", "raw-handshake", "plain", "keyupdate-storm", "keyupdate-storm"}
+	kinds := []string{"empty-flood", "raw-handshake", "plain", "keyupdate-storm", "keyupdate-storm", "short-record"}
 	if !tls13 {
-		kinds = []string{"empty-flood", "raw-handshake", "plain", "hello-request", "hello-request", "cbc-padding-only"}
+		kinds = []string{"empty-flood", "raw-handshake", "plain", "hello-request", "hello-request", "cbc-padding-only", "short-record", "short-record"}
 	}
 	p.kind = kinds[ch.Pick(len(kinds), "post-kind")]
 	switch p.kind {
@@ -47,6 +47,15 @@ func drawPostPlan(ch *simrt.Chooser, tls13 bool) postPlan {
 		p.n = []int{1, 2, 5, 50}[ch.Pick(4, "hello-requests")]
 	case "cbc-padding-only":
 		p.n = []int{1, 2, 3, 8, 16}[ch.Pick(5, "padding-blocks")]
+	case "short-record":
+		// an unprotected record of 0..72 garbage bytes once the keys are on: shorter than a MAC, a
+		// cipher block, an explicit nonce plus tag - every record-layer length guard is walked
+		p.msgType = []uint8{23, 23, 22, 21}[ch.Pick(4, "record-type")]
+		p.body = make([]byte, ch.Range(0, 72, "record-len"))
+		if ch.Bool(50, "boundary-len") {
+			p.body = make([]byte, []int{0, 1, 7, 8, 15, 16, 19, 20, 21, 23, 24, 31, 32, 35, 36, 39, 40, 47, 48, 51, 52}[ch.Pick(21, "record-len-b")])
+		}
+		ch.Bytes(p.body, "record-body")
 	case "raw-handshake":
 		p.msgType = []uint8{25, 8, 4, 24, 13, 0, 1, 2, 11, 15, 20, 254}[ch.Pick(12, "msg-type")]
 		p.body = make([]byte, []int{0, 1, 2, 5, 40, 300}[ch.Pick(6, "msg-len")])
@@ -91,6 +100,10 @@ func (p postPlan) misbehave(rc *refsrv.Conn) error {
 		// TLS <= 1.2 with a CBC suite: a record encrypted under the real key whose plaintext is
 		// nothing but valid padding (it covers the place of the MAC)
 		if err := rc.SendCBCPaddingOnlyRecord(p.n); err != nil {
+			return err
+		}
+	case "short-record":
+		if err := rc.SendUnprotectedRecord(p.msgType, p.body); err != nil {
 			return err
 		}
 	case "hello-request":
@@ -163,6 +176,22 @@ func runC33Post(c *Ctx) {
 		srvMax = []uint16{tls.VersionTLS12, tls.VersionTLS11, tls.VersionTLS10}[ch.Pick(3, "cbc-version")]
 		cfg.CipherSuites = []uint16{0xc013, 0xc014, 0xc009, 0xc00a, 0x002f, 0x0035, 0xc012, 0x000a}
 	}
+	ccfg := negCfg()
+	if plan.kind == "short-record" && srvMax != tls.VersionTLS13 && ch.Bool(65, "legacy-suite") {
+		// every record protection TLS <= 1.2 has: a HelloGolang client told to offer exactly one suite
+		// (RC4 and 3DES are still implemented and reachable through Config.CipherSuites, and through
+		// the parrots that list them)
+		suite := []uint16{0x0005, 0xc011, 0xc007, 0x000a, 0xc012, 0x002f, 0xc013, 0xc009, 0x003c, 0xc027, 0xc02f, 0xcca8, 0x009c}[ch.Pick(13, "legacy-suite-id")]
+		srvMax = []uint16{tls.VersionTLS12, tls.VersionTLS12, tls.VersionTLS11, tls.VersionTLS10}[ch.Pick(4, "legacy-version")]
+		if suite == 0x003c || suite == 0xc027 || suite == 0xc02f || suite == 0xcca8 || suite == 0x009c {
+			srvMax = tls.VersionTLS12
+		}
+		f = &Fingerprint{Kind: "golang", IDI: IDInfo{"Golang", tls.HelloGolang}, Desc: fmt.Sprintf("suite=%04x", suite)}
+		of = &Offer{Versions: []uint16{srvMax}}
+		ccfg.CipherSuites, ccfg.MinVersion, ccfg.MaxVersion = []uint16{suite}, tls.VersionTLS10, srvMax
+		cfg.CipherSuites, cfg.MinVersion = []uint16{suite}, tls.VersionTLS10
+		c.Probe(fmt.Sprintf("short-record-suite=%04x", suite))
+	}
 	cfg.MaxVersion = srvMax
 	cfg.NextProtos = of.ALPN
 	w := c.NewWorld(simrt.Config{StepCap: 80000})
@@ -171,7 +200,6 @@ func runC33Post(c *Ctx) {
 	var refErr error
 	// the caller's Config may allow renegotiation (HelloGolang takes it from the Config, parrots from
 	// their renegotiation_info extension)
-	ccfg := negCfg()
 	ccfg.Renegotiation = []tls.RenegotiationSupport{tls.RenegotiateNever, tls.RenegotiateOnceAsClient, tls.RenegotiateFreelyAsClient}[ch.Pick(3, "client-reneg")]
 	sp := &ConnSpec{ID: f.IDI.ID, Spec: f.Spec(), CCfg: ccfg, Peer: PeerRef, RefCfg: cfg, Deadline: 30 * time.Second,
 		Setup: func(l *simnet.Link) { link = l; l.Frag = ch.Bool(30, "frag") }}
